@@ -4,54 +4,115 @@ STUBS = "#[kani::stub(std::string::String::from_utf8, from_utf8_ascii)] #[kani::
 OPN = {1: "rrq", 2: "wrq", 3: "data", 4: "ack", 5: "error", 6: "oack"}
 
 
-def dec(l, op, stable=False, real_utf8=False, timeout=900, mem_kb=None, unw=None):
-    opsym = op is None
-    name = "c10_%s_l%d%s%s" % ("badop" if opsym else OPN[op], l, "_stable" if stable else "", "_utf8" if real_utf8 else "")
+def dec(l, op, stable=False, real_utf8=False, timeout=600, mem_kb=None, unw=34):
+    name = "c10_%s_l%d%s%s" % (OPN[op], l, "_stable" if stable else "", "_utf8" if real_utf8 else "")
     attr = "" if real_utf8 else STUBS
-    unw = unw or (l + 3 if l + 3 > 14 else 14)
-    inv = "c10_decode!(%s%s, %d, %s, %d, %s, %d);" % (attr, name, l, "true" if opsym else "false", op or 0,
-                                                    "true" if stable else "false", unw)
+    inv = "c10_decode!(%s%s, %d, 0, %d, %s, %d);" % (attr, name, l, op, "true" if stable else "false", unw)
     return Inst(name, "packet", inv, "c10_decode",
-                {"datagram_length": l, "opcode": "any u16 outside 1..6" if opsym else op, "other_bytes": "symbolic",
-                 "re-encode_check": stable, "utf8": "real String::from_utf8" if real_utf8 else "ASCII model (bytes >= 0x80 inside strings outside the claim)",
-                 "unwind": unw}, timeout=timeout, mem_kb=mem_kb)
+                {"datagram_length": l, "opcode": op, "other_bytes": "all symbolic", "re-encode_check": stable,
+                 "utf8": "real String::from_utf8" if real_utf8 else "ASCII model (bytes >= 0x80 inside strings outside the claim)", "unwind": unw},
+                timeout=timeout, mem_kb=mem_kb)
+
+
+def badop(l, op):
+    name = "c10_badop_l%d_op%d" % (l, op)
+    return Inst(name, "packet", "c10_decode!(%s%s, %d, %d, %d, false, 34);" % (STUBS, name, l, op >> 8, op & 255), "c10_decode",
+                {"datagram_length": l, "opcode": op, "other_bytes": "all symbolic"}, timeout=300)
+
+
+def tmpl(tag, data, positions, stable=False, real_utf8=False, timeout=600, mem_kb=None, unw=34):
+    name = "c10_t_%s_p%s%s%s" % (tag, "_".join(str(p) for p in positions), "_stable" if stable else "", "_utf8" if real_utf8 else "")
+    attr = "" if real_utf8 else STUBS
+    inv = "c10_template!(%s%s, [%s], [%s], %s, %d);" % (attr, name, ",".join(str(x) for x in data), ",".join(str(p) for p in positions),
+                                                     "true" if stable else "false", unw)
+    return Inst(name, "packet", inv, "c10_template",
+                {"template": data.decode("latin1").replace("\x00", "\\0"), "length": len(data), "symbolic_byte_positions": list(positions),
+                 "re-encode_check": stable, "utf8": "real" if real_utf8 else "ASCII model"}, timeout=timeout, mem_kb=mem_kb)
 
 
 FUNCS = ["Packet::deserialize", "Convert::to_u16", "Convert::to_string", "parse_rq", "parse_data", "parse_ack", "parse_oack",
          "parse_error", "Opcode::from_u16", "ErrorCode::from_u16", "OptionType::from_str", "str::parse::<usize> (real std)",
          "Packet::serialize (stability instances)"]
-ASSUME = ["one instance per datagram length and opcode class; all remaining bytes symbolic",
+ASSUME = ["solver-decided families: (1) every ACK / DATA / ERROR datagram of length 2..6 (all bytes after the opcode symbolic), every RRQ/WRQ/OACK of length 2; (2) datagrams of 0, 1 and 2 bytes incl. invalid opcodes (longer datagrams with an invalid opcode are outside: see the comment in props/c10.py; Opcode::from_u16 itself is decided over all u16 in C11); "
+          "(3) ERROR templates with 1..2 symbolic byte positions (code, terminator, message bytes)",
+          "NOT solver-decided: RRQ/WRQ/OACK with any symbolic byte - one possibly-NUL byte makes every later string length symbolic and the run exceeds 600 s / 10 GB (measured for 3-byte requests and for 1 symbolic byte in a 6-byte template). "
+          "Requests and OACKs are therefore covered by CONCRETE datagrams (all prefixes of valid packets, single-byte substitutions, case variants, boundary numbers; VERIF_SEED varies the sample) executed by the engine against the reference decoder: an enumeration, stated as such",
           "stubs in instances not marked _utf8: String::from_utf8 -> ASCII-only model (assumes bytes < 0x80), str::to_lowercase -> ASCII model, fmt::format -> empty",
           "ERROR without NUL decodes to '(no message)' (pinned test parses_error_without_message): documented leniency, not asserted as a rejection",
-          "reference decoder for RRQ/WRQ/OACK written from RFC 1350/2347 in the harness (optional '+' accepted in numbers as str::parse does)",
-          "datagrams longer than the instance lengths (quick <= 6 for requests, thorough <= 9) are outside the claim"]
+          "reference decoder for RRQ/WRQ/OACK written from RFC 1350/2347 in the harness (optional '+' accepted in numbers as str::parse does)"]
+
+RRQ = b"\x00\x01f\x00o\x00"
+RRQ_BLK = b"\x00\x01f\x00o\x00blksize\x00512\x00"
+WRQ_2 = b"\x00\x02a\x00b\x00timeout\x005\x00WINDOWSIZE\x008\x00"
+OACK_T = b"\x00\x06tsize\x000\x00"
+OACK_W = b"\x00\x06windowsize\x0065535\x00"
+ERR = b"\x00\x05\x00\x01xy\x00"
+RRQ_PLUS = b"\x00\x01f\x00o\x00tsize\x00+5\x00"
+RRQ_UNK = b"\x00\x01f\x00o\x00foo\x00bar\x00blksize\x008\x00"
 
 
 def build(tier, seed):
+    import random
+    rnd = random.Random(seed or 1)
     I = []
-    # lengths 0..4 with any opcode (incl. unknown): totality + rejection
-    for l in (0, 1, 2, 3, 4):
-        I.append(dec(l, None))
+    I.append(badop(0, 0))
+    I.append(badop(1, 0))
+    # longer datagrams with an invalid opcode: the Err("Invalid opcode") result is niche-encoded and CBMC does not fold the
+    # '?' on it, so all six parsers are explored on symbolic bytes (> 300 s measured for 3 bytes); the opcode check itself is
+    # decided for all u16 in C11 (c11_enums)
+    for l, op in ([(2, 0), (2, 7), (2, 256), (2, 65535)] if tier == "quick" else [(2, op) for op in (0, 7, 8, 255, 256, 257, 1536, 65535)]):
+        I.append(badop(l, op))
     for l in (2, 3, 4, 5, 6):
-        I.append(dec(l, 4))
-        I.append(dec(l, 3, stable=(l == 6)))
-    for l in (3, 4, 5, 6):
-        I.append(dec(l, 5))
-    I.append(dec(5, 5, real_utf8=True, timeout=1500, mem_kb=14 * 1024 * 1024))
-    for l in (2, 3, 4, 5):
-        I.append(dec(l, 1, timeout=1500, mem_kb=12 * 1024 * 1024))
-        I.append(dec(l, 6, timeout=1500, mem_kb=12 * 1024 * 1024))
-    I.append(dec(4, 2, stable=True, timeout=1500, mem_kb=12 * 1024 * 1024))
-    I.append(dec(6, 6, timeout=1800, mem_kb=14 * 1024 * 1024))
+        I.append(dec(l, 4, stable=(l == 4 and tier == 'thorough')))
+        I.append(dec(l, 3, stable=(l == 5 and tier == 'thorough')))
+    for l in (2, 3, 4, 5, 6):
+        I.append(dec(l, 5, stable=(l == 4 and tier == 'thorough')))
+    for op in (1, 2, 6):
+        I.append(dec(2, op))
+    # ERROR templates with symbolic positions (the ERROR decoder has a single string: affordable)
+    for pos in ([3], [2], [6], [4], [4, 5]):
+        I.append(tmpl("err", ERR, pos))
+    # Requests / OACK: one symbolic byte makes the NUL search - hence every string length - symbolic and the run exceeds
+    # 600 s (measured), so these are CONCRETE datagrams executed by the engine: every prefix of valid packets (each cut point:
+    # missing terminators, truncated names / values) and single-byte substitutions at structurally relevant positions.
+    seen = set()
+
+    def conc(tag, data):
+        if data in seen or len(data) > 32:
+            return
+        seen.add(data)
+        I.append(tmpl("%s_n%d" % (tag, len(seen)), data, []))
+
+    bases = [("rrq", RRQ), ("rrqblk", RRQ_BLK), ("oackt", OACK_T), ("plus", RRQ_PLUS), ("unk", RRQ_UNK), ("wrq2", WRQ_2), ("oackw", OACK_W)]
+    for tag, data in bases:
+        cuts = list(range(2, len(data) + 1))
+        if tier == "quick" and len(cuts) > 4:
+            cuts = sorted(set(rnd.sample(cuts, 2) + [len(data), len(data) - 1]))
+        for c in cuts:
+            conc(tag + "_cut", data[:c])
+    subs = [b"x", b"\x00", b"9", b"-", b"B"]
+    for tag, data in bases[:5]:
+        poss = list(range(2, len(data)))
+        if tier == "quick":
+            poss = rnd.sample(poss, min(3, len(poss)))
+        for p_ in poss:
+            for sub in (subs if tier == "thorough" else rnd.sample(subs, 1)):
+                conc(tag + "_sub", data[:p_] + sub + data[p_ + 1:])
+    conc("upper", b"\x00\x01f\x00o\x00BLKSIZE\x008\x00")
+    conc("mixed", b"\x00\x02f\x00o\x00TiMeOuT\x003\x00wINDOWSIZe\x004\x00")
+    conc("big", b"\x00\x06tsize\x0018446744073709551615\x00")
+    conc("toobig", b"\x00\x06tsize\x0018446744073709551616\x00")
+    conc("neg", b"\x00\x01f\x00o\x00tsize\x00-1\x00")
+    conc("empty_val", b"\x00\x01f\x00o\x00tsize\x00\x00")
+    conc("empty_names", b"\x00\x01\x00\x00")
     if tier == "thorough":
-        for l in (6, 7, 8):
-            I.append(dec(l, 1, timeout=3600, mem_kb=20 * 1024 * 1024))
-            I.append(dec(l, 6, stable=(l == 7), timeout=3600, mem_kb=20 * 1024 * 1024))
-        I.append(dec(6, 2, stable=True, timeout=3600, mem_kb=20 * 1024 * 1024))
-        I.append(dec(8, 5, stable=True))
+        I.append(dec(3, 1, timeout=3600, mem_kb=20 * 1024 * 1024))
+        I.append(dec(3, 6, timeout=3600, mem_kb=20 * 1024 * 1024))
+        I.append(dec(8, 5))
         I.append(dec(9, 3, stable=True))
-        I.append(dec(4, 1, real_utf8=True, timeout=3600, mem_kb=20 * 1024 * 1024))
-        I.append(dec(6, 5, real_utf8=True, timeout=3600, mem_kb=20 * 1024 * 1024))
+        I.append(dec(5, 5, real_utf8=True, timeout=3600, mem_kb=20 * 1024 * 1024))
+        I.append(tmpl("err", ERR, [4], real_utf8=True, timeout=1800, mem_kb=14 * 1024 * 1024))
+        I.append(tmpl("rrq", RRQ, [], real_utf8=True))
     return Check("C10", tier, I, seed, functions=FUNCS, assumptions=ASSUME,
-                 explanation="Packet::deserialize on every datagram of the instance's length and opcode class: no panic / failed bounds check (totality), "
-                             "agreement with a reference decoder incl. all rejection cases, and decode(encode(decode(x))) == decode(x) in the _stable instances")
+                 explanation="Packet::deserialize: no panic / failed bounds check (totality), agreement with a reference decoder incl. all rejection cases, "
+                             "and decode(encode(decode(x))) == decode(x) in the _stable instances")
